@@ -215,6 +215,7 @@ def tolerance_helpers(ctx):
     """almost_le(a,b,ε) == a < b(1+ε) || a < b+ε ; almost_ge mirrored; almost_eq relative-or-absolute, default ε = 1e-8"""
     from sa.svn import Engine
     e = Engine(ctx.prog)
+    e.no_inline = set()
     specs = {
         'utils::almost_le': lambda a, b, eps: OR(a.lt(b * (1 + eps)), a.lt(b + eps)),
         'utils::almost_ge': lambda a, b, eps: OR(a.gt(b * (1 - eps)), a.gt(b - eps)),
